@@ -122,6 +122,20 @@ func c18Definitions(c *c18Case) *c18Build {
 				link(th)
 				b.behind[p+"_pre"] = append(b.behind[p+"_pre"], th.ID)
 			}
+			if c.Link == "fanin" {
+				// four throw events on parallel branches, each with a message flow of its own to the SAME catch event
+				fk := g.Add(gen.And, p+"_ffork", "")
+				jn := g.Add(gen.And, p+"_fjoin", "")
+				link(fk)
+				for k := 1; k <= 4; k++ {
+					th := g.Add(gen.Throw, fmt.Sprintf("%s_throwF%d", p, k), "")
+					th.Events = []gen.EventDef{{Type: "signal", Ref: "sigC"}}
+					g.Connect(fk, th, nil)
+					g.Connect(th, jn, nil)
+					b.behind[p+"_pre"] = append(b.behind[p+"_pre"], th.ID)
+				}
+				prev = jn
+			}
 			if c.Link == "catch2" {
 				// a second throw behind a task of its own: its catch event starts listening (and is
 				// registered with the set) only after the first catch event was woken
@@ -137,7 +151,7 @@ func c18Definitions(c *c18Case) *c18Build {
 		b.graphs = append(b.graphs, g)
 		b.exec = append(b.exec, true)
 	}
-	if c.Link == "catch" || c.Link == "both" || c.Link == "catch2" {
+	if c.Link == "catch" || c.Link == "both" || c.Link == "catch2" || c.Link == "fanin" {
 		// dedicated executable process that waits at a catch event
 		g := gen.NewGraph("pc")
 		s := g.Add(gen.Start, "pc_start", "")
@@ -157,8 +171,16 @@ func c18Definitions(c *c18Case) *c18Build {
 		g.Connect(t, e, nil)
 		b.graphs = append(b.graphs, g)
 		b.exec = append(b.exec, true)
-		b.links["p0_throwC"] = append(b.links["p0_throwC"], c18Link{len(b.graphs) - 1, "pc_catch", "catch"})
-		flows = append(flows, `<bpmn:messageFlow id="MF_c" sourceRef="p0_throwC" targetRef="pc_catch"/>`)
+		if c.Link == "fanin" {
+			for k := 1; k <= 4; k++ {
+				th := fmt.Sprintf("p0_throwF%d", k)
+				b.links[th] = append(b.links[th], c18Link{len(b.graphs) - 1, "pc_catch", "catch"})
+				flows = append(flows, fmt.Sprintf(`<bpmn:messageFlow id="MF_f%d" sourceRef="%s" targetRef="pc_catch"/>`, k, th))
+			}
+		} else {
+			b.links["p0_throwC"] = append(b.links["p0_throwC"], c18Link{len(b.graphs) - 1, "pc_catch", "catch"})
+			flows = append(flows, `<bpmn:messageFlow id="MF_c" sourceRef="p0_throwC" targetRef="pc_catch"/>`)
+		}
 		if c.Link == "catch2" {
 			b.links["p0_throwC2"] = append(b.links["p0_throwC2"], c18Link{len(b.graphs) - 1, "pc_catch2", "catch"})
 			flows = append(flows, `<bpmn:messageFlow id="MF_c2" sourceRef="p0_throwC2" targetRef="pc_catch2"/>`)
@@ -231,7 +253,7 @@ func c18Cases(tier string, seed uint64) []fw.Case {
 	}
 	combos = append(combos, []string{"trivial", "trivial", "trivial"}, []string{"task", "trivial", "fork"}, []string{"fork", "task", "task"})
 	for ci, ex := range combos {
-		for _, link := range []string{"none", "start", "catch", "both", "start2", "waitcatch", "catch2", "loopstart"} {
+		for _, link := range []string{"none", "start", "catch", "both", "start2", "waitcatch", "catch2", "loopstart", "fanin"} {
 			if link != "none" && ex[0] == "trivial" && len(ex) == 1 {
 				// fine: p0 gets the pre task anyway
 			}
@@ -575,8 +597,8 @@ func c18Run(c *c18Case, env *fw.Env, v *fw.V) {
 	if n := count("CeaseSet"); n != 1 {
 		v.Violate("cease-set-count", cls, "%d cease-process-set traces after completed waits (%s), expected exactly 1", n, c.Waits)
 	}
-	if n := count("Instantiation"); c.Link != "none" && n != len(c.Execs)+btoi(c.Link == "catch" || c.Link == "both" || c.Link == "catch2")+instantiations {
-		v.Violate("instantiation-count", cls, "%d instantiation traces, expected %d executable + %d instantiated by message flows", n, len(c.Execs)+btoi(c.Link == "catch" || c.Link == "both" || c.Link == "catch2"), instantiations)
+	if n := count("Instantiation"); c.Link != "none" && n != len(c.Execs)+btoi(c.Link == "catch" || c.Link == "both" || c.Link == "catch2" || c.Link == "fanin")+instantiations {
+		v.Violate("instantiation-count", cls, "%d instantiation traces, expected %d executable + %d instantiated by message flows", n, len(c.Execs)+btoi(c.Link == "catch" || c.Link == "both" || c.Link == "catch2" || c.Link == "fanin"), instantiations)
 	}
 	v.Add("traces", count("Visit"))
 }
